@@ -45,4 +45,45 @@ theorem ctx_error_at_exhaustion (P : Params) (hP : P.Good) (qf : RepMap M → R 
 /-- … and an RPC likewise -/
 theorem rpc_ctx_returns (post : List (Arrival M E)) (c : E) : runRpc (.ctxDone c :: post) = .ctxErr c := rfl
 
+/-! ### one-way calls (multicast.go, unicast.go): the wait for send confirmations -/
+
+/-- **a one-way call returns as soon as its context ends**: whatever was confirmed before, when the context's
+    end is consumed the wait loop returns — provided the loop has the context case (read from the tree) -/
+theorem oneway_ctx_returns (nsw : Bool) (sent : Nat) (pre post : List WaitEvent) :
+    onewayReturns nsw true sent (pre ++ .ctxDone :: post) = true := by
+  unfold onewayReturns
+  cases nsw with
+  | true => rfl
+  | false =>
+    simp only [Bool.false_or]
+    induction pre generalizing sent with
+    | nil => cases sent <;> simp [waitLoop]
+    | cons e pre ih =>
+      cases sent with
+      | zero => simp [waitLoop]
+      | succ n =>
+        cases e with
+        | confirmed => simpa [waitLoop] using ih n
+        | ctxDone => simp [waitLoop]
+
+/-- why the case matters: a wait loop without it (the pinned code) keeps waiting for the confirmation of a
+    message that a stuck sender never writes, although the context has ended (the defect repaired by fix df92080) -/
+theorem oneway_needs_ctx_case : onewayReturns false false 1 [.ctxDone] = false := by decide
+
+/-- with the context alive a send-waiting call returns exactly when every sent message is confirmed … -/
+theorem oneway_waits_for_confirmations (waitsCtx : Bool) (sent k : Nat) :
+    onewayReturns false waitsCtx sent (List.replicate k .confirmed) = true ↔ sent ≤ k := by
+  unfold onewayReturns
+  simp only [Bool.false_or]
+  induction k generalizing sent with
+  | zero => cases sent <;> simp [waitLoop]
+  | succ k ih =>
+    cases sent with
+    | zero => simp [waitLoop]
+    | succ n => simp only [List.replicate_succ, waitLoop]; rw [ih n]; omega
+
+/-- … and with no-send-waiting at once -/
+theorem oneway_nosendwaiting (waitsCtx : Bool) (sent : Nat) (es : List WaitEvent) :
+    onewayReturns true waitsCtx sent es = true := rfl
+
 end GorumsV.C08
